@@ -92,12 +92,14 @@ mod verif_xc_matching_event_loop {
     q: Q,
     key: u8,
   }
-  const LOCALS: [Local; 5] = [
+  const NL: usize = 6;
+  const LOCALS: [Local; NL] = [
     Local { name: "LR0(T1,best-effort,volatile)", is_reader: true, topic: T1, q: q(false, false), key: 1 },
     Local { name: "LR1(T1,reliable,volatile)", is_reader: true, topic: T1, q: q(true, false), key: 2 },
     Local { name: "LR2(T2,reliable,transient-local)", is_reader: true, topic: T2, q: q(true, true), key: 3 },
     Local { name: "LW0(T1,reliable,volatile)", is_reader: false, topic: T1, q: q(true, false), key: 4 },
     Local { name: "LW1(T2,reliable,transient-local)", is_reader: false, topic: T2, q: q(true, true), key: 5 },
+    Local { name: "LW2(T1,reliable,transient-local)", is_reader: false, topic: T1, q: q(true, true), key: 6 },
   ];
   struct Remote {
     name: &'static str,
@@ -172,8 +174,8 @@ mod verif_xc_matching_event_loop {
   struct Model {
     cfg: Cfg,
     announced: BTreeSet<usize>,
-    total: [i32; 5],    // matches ever made, per local endpoint
-    incompat: [i32; 5], // incompatible announces ever seen, per local endpoint
+    total: [i32; NL],    // matches ever made, per local endpoint
+    incompat: [i32; NL], // incompatible announces ever seen, per local endpoint
   }
   impl Model {
     fn violations(&self, l: usize, r: usize) -> Vec<QosPolicyId> {
@@ -210,7 +212,7 @@ mod verif_xc_matching_event_loop {
     ev: DPEventLoop,
     model: Model,
     status: Vec<StatusRx>,
-    last_total_seen: [i32; 5],
+    last_total_seen: [i32; NL],
     history: Vec<Ev>, // since the last state in which everything was empty
     origin: String,
     _keep: Vec<Box<dyn Any>>, // the far ends of all channels stay alive
@@ -300,9 +302,9 @@ mod verif_xc_matching_event_loop {
       }
       Harness {
         ev,
-        model: Model { cfg, announced: BTreeSet::new(), total: [0; 5], incompat: [0; 5] },
+        model: Model { cfg, announced: BTreeSet::new(), total: [0; NL], incompat: [0; NL] },
         status,
-        last_total_seen: [0; 5],
+        last_total_seen: [0; NL],
         history: vec![],
         origin: "a fresh event loop".to_string(),
         _keep: keep,
@@ -558,9 +560,9 @@ mod verif_xc_matching_event_loop {
       }
     }
     assert!(n == 14 * 14 * 14 * 14, "vacuity guard: only {} sequences enumerated", n);
-    assert!(h.model.total.iter().take(4).all(|&t| t > 1000) && h.model.total[4] == 0,
+    assert!((0..NL).all(|l| if l == 4 { h.model.total[l] == 0 } else { h.model.total[l] > 1000 }),
       "vacuity guard: match totals {:?} (LW1 on T2 can never match: no remote reader on T2)", h.model.total);
-    assert!(cfg != CFGS[0] || h.model.incompat.iter().take(4).filter(|&&c| c > 1000).count() >= 3,
+    assert!(cfg != CFGS[0] || h.model.incompat.iter().filter(|&&c| c > 1000).count() >= 3,
       "vacuity guard: incompatible counts {:?}", h.model.incompat);
   }
   #[test]
